@@ -104,9 +104,19 @@ check("C08", "exploration",
       "Judged at the commit of each relevant write (ordered write log): the claim finalizer is removed only when the bound XR is absent or (Background) already marked deleted, and absent under Foreground; "
       "a CRD delete by an XRD controller commits only with zero instances in the store and after SimEngine.Stop of the serving controller; during XRD teardown a controller is stopped only with zero instances; "
       "an XRD finalizer is removed only when its CRD is absent or not controlled by the XRD.",
-      TB + " Claimed clauses: claim/XR/XRD ordering. The package-revision/lock clause and the composed-Usage clause of the statement are not decided by this check yet. Bounded liveness of teardown is counted, not judged.",
+      TB + " Claimed here: claim/XR/XRD ordering. The composed-Usage clause is decided inside the C19 check (signature prefix C08/); the package-revision/lock clause is not decided yet. Bounded liveness of teardown is counted, not judged.",
       "deterministic simulation with fault injection: seeded schedule/fault/crash search, ordering oracles over the committed write log and engine stop events",
       "§7 C08")
+
+check("C19", "exploration",
+      "Seeded deterministic simulation of the real Usage reconciler and the real no-usages admission webhook (registered by the real SetupWebhookWithManager on a fake manager; rules and objectSelector parsed from cluster/webhookconfigurations/usage.yaml), with every DELETE reaching the store only through the admission chain. "
+      "1-3 Usages over one used resource (a kind served in two versions, referenced by either version, by name or by label selector) and two using resources; Usages, used and using resources are created and deleted in any order, with any propagation policy and request version; the garbage collector and the clock (delayed replay of deletions) are interleaved actors; reconciles are faulted or crashed at any call. "
+      "Every DELETE of the used resource is judged: refused and recorded on the resource while a ready, not-deleted Usage names it; allowed when no Usage names it. At the commit that makes a Usage ready: the used resource carries the in-use marker and the Usage is owned by its using resource. "
+      "A marker removal by the controller happens only when no other Usage that named the resource at the remover's last listing remains. Final probe: after deleting the users the garbage collector releases the Usages and the delete of the used resource is allowed. "
+      "Also decides C08's composed-Usage clause: a composed Usage loses its finalizer only when the using resource it was bound to (by UID) is gone.",
+      TB + " The webhook's reads and its annotation patch are atomic with the DELETE request (in reality they are separate API calls of the webhook process). Re-creating a used resource under a ready Usage is outside the generated histories.",
+      "deterministic simulation with fault injection: seeded schedule/fault/crash search; every delete request and every committed controller write judged against the store and the read/write log",
+      "§7 C19")
 
 def main():
     props = [json.loads(l)["id"] for l in open(os.path.join(V, "properties.jsonl"))]
